@@ -691,3 +691,12 @@ func Enumerate(maxPreempt, maxRuns int, run func(prefix []int) (options []int, o
 	}
 	return runs, false
 }
+
+// CurrentName returns the name of the controlled thread that is calling, or ""
+// when the caller is not a controlled thread.
+func (s *Sched) CurrentName() string {
+	if t := s.lookup(); t != nil {
+		return t.Name
+	}
+	return ""
+}
